@@ -389,7 +389,7 @@ PROPS['C07'] = dict(
     technique='Verus contracts on the real transform-domain wrappers of both backends (fft64 and ntt120 vec_znx_dft.rs: add/sub/copy/limb-select/zero/apply act limb-wise, numeric kernels abstract); Kani loop-free full-domain contract check of the real NTT120 scalar conversion kernels (the entry into the transform domain)',
     level_text='Unbounded (all shapes, steps, offsets, a_scale): every limb of the selected column of vec_znx_dft_{add_into, add_assign, add_scaled_assign, sub, sub_assign, sub_negate_assign, copy, zero, apply} and of their ntt120_* twins is the named kernel applied to exactly the input limbs the limb rule selects (limb offset + j*step, limb j + a_scale), zero past the source, every other limb block unchanged. Vector-matrix product (fft64 vmp_apply_dft_to_dft_core, all n >= 8, shapes, limb offsets of either parity, odd or even column counts): for every output limb jo and every 4-complex block, the product kernel is handed exactly (operand limb r, prepared-matrix entry (r, jo + limb_offset)) for r < min(rows, a_size) -- the sum of the row products -- under the interleaved two-column block layout; limbs past col_max - limb_offset are zero. Complete per coefficient for every i64 (and every mask): b_from_znx64_ref yields, for each of the four primes of the backend (Primes30), a residue congruent to x with the documented lazy range < 2^63 + Q; the masked variant equals the conversion of the masked value.',
     level_note='The numeric kernels (reim_* / ntt_* element operations, the FFT/NTT itself) are uninterpreted in the Verus units: that forward followed by inverse is the identity and that products are exact is NOT decided (FFT64 is floating point; NTT butterflies / CRT reconstruction time out in CBMC). idft_apply*, svp, convolution apply (the prepare step IS: unit cnv_prepare_fft64 -- complete write of the block layout, padding rows zero), vmp_prepare (the writer of the vmp block layout) and the NTT120 vmp / convolution are not under contract; the reim4 block kernels are abstract (contracts assumed on the Reim4BlkMatVec trait).',
-    units=[V('vec_znx_dft'), V('vec_znx_dft_ntt120'), V('vmp_fft64'), V('vmp_ntt120'), V('cnv_prepare_fft64'), V('cnv_apply_fft64'),
+    units=[V('vec_znx_dft'), V('vec_znx_dft_ntt120'), V('vmp_fft64'), V('vmp_ntt120'), V('cnv_prepare_fft64'), V('cnv_apply_fft64'), V('fft_tables', lemmas=['c07_fft_dispatch_agree', 'c07_fft_recursion_agree', 'c07_ifft_dispatch_agree', 'c07_ifft_recursion_agree']),
            K('poulpy-cpu-ref', 'verif_kani::c07', ['c07_b_from_znx64_residues', 'c07_b_from_znx64_masked_residues'], cls='complete', timeout=900,
              functions=['reference::ntt120::arithmetic::b_from_znx64_ref', 'b_from_znx64_masked_ref'])],
     trusted_base=VERUS_TRUST + ['abstract kernel contracts of ReimArith / ReimFFTExecute / Ntt* traits (block in, block out; lengths)', 'limb_u64 / limb_u64_mut (bytemuck casts of at / at_mut) return the 4n-word block of the limb',
